@@ -74,7 +74,8 @@ def gen_scenario(r, sid):
             n += 1
             kind = r.choice(["event", "event", "event", "mqtt", "webhook"])
             key = r.choice(KEYS[kind][:2]) if kind != "webhook" else r.choice(sorted(used_wh) or ["w1"])
-            msgs.append({"kind": kind, "key": key, "d": {"n": "m%d" % n, "v": r.choice("01"), "sl": r.choice("001")}})
+            # v = "x": not a number - a filter int(v) raises on it (no run, and the trigger must keep serving)
+            msgs.append({"kind": kind, "key": key, "d": {"n": "m%d" % n, "v": r.choice("0011x"), "sl": r.choice("001")}})
         bursts.append({"msgs": msgs, "gap": r.choice([0, 1, 3, 10])})
     return {"sid": sid, "trigs": trigs, "bursts": bursts}
 
@@ -106,7 +107,7 @@ def source(scn):
             "    service.call('test', 'sink', n=d['n'], fid='%(f)s', tag=kw['dec'])\n"
             "    if d['sl'] == '1':\n"
             "        task.sleep(7)\n"
-            "    vf.rec('end', '%(f)s', d['n'])\n" % {"f": fid})
+            "    vf.rec('end', '%(f)s', d['n'], kw['dec'])\n" % {"f": fid})
     return "\n".join(out)
 
 
@@ -202,7 +203,9 @@ def run_case(scn, legacy):
                 msgs.append(mm)
             await w.settle()
             runs = []
-            for (_, a, _) in w.take():
+            taken = w.take()
+            all_recs.extend(taken)
+            for (_, a, _) in taken:
                 if a[0] != "start":
                     continue
                 kw = a[2]
@@ -220,18 +223,25 @@ def run_case(scn, legacy):
             if b["gap"]:
                 await asyncio.sleep(b["gap"])
                 await w.settle()
-                w.take()
+                all_recs.extend(w.take())
                 # emissions never happen after the start segment, but keep the record honest
                 if emits:
                     out_bursts[-1]["emits"] += list(emits)
                     emits.clear()
 
+        # let every sleeping run finish, then collect what each run reports at its end
+        await asyncio.sleep(12)
+        await w.settle()
+        ends.extend({"fid": a[1], "tag": str(a[3]), "n": str(a[2])} for (_, a, _) in all_recs + w.take() if a[0] == "end")
+
+    ends = []
+    all_recs = []
     patches = [patch("custom_components.pyscript.mqtt.mqtt.async_subscribe", fake_subscribe)]
     if not legacy:
         patches.append(patch("custom_components.pyscript.decorators.mqtt.mqtt.async_subscribe", fake_subscribe))
     world.run({"hello.py": source(scn)}, body, legacy=legacy, extra_patches=patches)
     return {"id": "%s/%s" % (scn["sid"], "legacy" if legacy else "dm"), "trigs": scn["trigs"], "bursts": out_bursts,
-            "legacy": legacy, "scn": scn}
+            "ends": ends, "legacy": legacy, "scn": scn}
 
 
 def work(job):
